@@ -14,6 +14,10 @@ history is replayed with the noise variances 0, 0.25 and 1 and judged by
   (4) use_same_signal: ONE signal draw in the observed call log and bit-equal noise-free data in
       all simulations; default: one signal draw per simulation and different noise-free data
   (5) data(s2) - data(0) == sqrt(s2) * E, the same E for s2 = 0.25 and s2 = 1, E != 0.
+  (6) consistency of the two design forms of the statement: a 1-d condition vector and the
+      indicator design matrix that says the same give the same data under the same replayed draw
+      history (model pattern k belongs to the k-th smallest condition LABEL, whatever the trial
+      order).  The RDM of (1) is compared per labelled pair of conditions, never by position.
 
 Inputs outside the preconditions of (1) (fewer channels than conditions, signal channel
 covariance given, non-embeddable model RDM, all points coincident, exact-signal option off) are
@@ -21,7 +25,9 @@ generated, run through (3)-(5), excluded from (1) and counted.
 
 Model RDMs: every configuration of n_cond points on the integer grid {0,1,2}^d, d <= 2 (block A),
 every categorical model = set partition of the conditions (block E), every vector over {0,1,2}^m
-(block C); the product of all simulation options on representatives (block B).
+(block C); the product of all simulation options on representatives (block B); condition vectors
+listing the conditions in EVERY order (all n_cond! permutations in the first partition, the same /
+reversed / rotated order in the later ones, labels c or 10+3c) on asymmetric RDMs (block F).
 
 Finding on the pinned tree (genuine, signatures ...|rdm-mismatch): make_signal takes
 L @ sqrt(D) of scipy.linalg.ldl(G) as a square root of G, but the pivoted factorisation returns
@@ -47,13 +53,16 @@ RULE = ('Configurations = (model RDM, n_channel - n_cond, n_part, (n_sim, use_sa
         '(de-duplicated by RDM vector, duplicates counted), each with every n_channel offset, the '
         'remaining dimensions advanced by a running mixed-radix counter; block B: the product '
         'of all dimensions on representative RDMs (see bounds); block C: every RDM vector over {0,1,2}^m '
-        '(embeddable or not) and the inputs outside the preconditions; block E: the RDM of EVERY '
-        'categorical model (one per set partition of the conditions into >= 2 categories, distance 0 '
+        '(embeddable or not) and the inputs outside the preconditions; block F: hand-made condition vectors with the '
+        'conditions in every one of the n_cond! orders within the first partition x (n_part, order of '
+        'the later partitions) in {(1,same),(2,same),(2,reversed),(3,rotated)} x label map; '
+        'block E: the RDM of EVERY categorical model (one per set partition of the conditions into >= 2 categories, distance 0 '
         'within / 1 between); block D: make_design for all '
         'n_cond<=6 x n_part<=5. For each configuration EVERY combination of menu answers (3 per '
         'numpy.random.uniform call of the library) is enumerated by prefix replay (states = nodes of '
         'the choice tree, transitions = its edges). One evaluation = one draw history, replayed with '
-        'noise variance 0, 0.25 and 1 on the real make_dataset and judged by the five oracles. '
+        'noise variance 0, 0.25 and 1 (and, for condition vectors, once with the equivalent indicator '
+        'design matrix) on the real make_dataset and judged by the six oracles. '
         'Non-trivial = model RDM not all zero; distinct = distinct (configuration, draw history).')
 ASSUMPTIONS = ['all randomness of make_dataset enters through numpy.random.uniform (every other '
                'numpy.random entry point is a tripwire that raises a harness error)',
@@ -67,7 +76,7 @@ TOL_RDM = 1e-5
 TOL_NOISE = 1e-9
 TOLERANCES = {'rdm (exact-signal construction floors LDL pivots at 1e-15; errors ~1e-7, heavy tail for '
               'n_channel == n_cond)': TOL_RDM,
-              'noise scaling': TOL_NOISE, 'same-signal equality': 'bit-exact',
+              'noise scaling': TOL_NOISE, 'condition vector vs equivalent design matrix': 1e-12, 'same-signal equality': 'bit-exact',
               'fresh-signal difference': '> 1e-6 relative'}
 BOUNDS = {
     'quick': {'grid (block A)': 'n_cond 2..4, d<=2: all 90 + 756 + 6642 configurations = 6 + 55 + 561 distinct '
@@ -85,6 +94,7 @@ BOUNDS = {
                          'exact option off on the representatives',
               'block E': 'categorical RDMs of all set partitions (>= 2 blocks) of 3, 4, 5 conditions = 4 + 14 + 51, '
                          'x 3 n_channel offsets ((n_sim=2, fresh) for every 4th RDM when n_cond=5)',
+              'block F': 'all 2! + 3! + 4! condition orders x 4 partition layouts on 3 asymmetric RDMs',
               'make_design': 'n_cond 1..6 x n_part 1..5'},
     'thorough': {'grid (block A)': 'n_cond 2..5, d<=2: all 90 + 756 + 6642 + 59292 configurations = 6 + 55 + '
                                    '561 + 5671 distinct RDM vectors, each x 3 n_channel offsets x all draw histories',
@@ -101,6 +111,7 @@ BOUNDS = {
                             'covariance / exact option off on the representatives x design',
                  'block E': 'categorical RDMs of all set partitions (>= 2 blocks) of 3..6 conditions = 4 + 14 + 51 '
                             '+ 202, x 3 n_channel offsets',
+                 'block F': 'all 2! + 3! + 4! + 5! condition orders x 4 partition layouts on 4 asymmetric RDMs',
                  'make_design': 'n_cond 1..6 x n_part 1..5'},
 }
 
@@ -123,6 +134,21 @@ REPS = {
                  [(0, 0), (1, 0), (2, 2), (0, 0)],
                  [(0, 0), (1, 0), (2, 2), (0, 2)]],
 }
+
+
+# block F: condition vectors whose conditions appear in EVERY order within the first partition
+# (all n_cond! permutations) x how the other partitions are ordered; the RDMs have no symmetry
+ORDER_REPS = {
+    'quick': [[(0, 0), (1, 2)],
+              [(0, 0), (1, 0), (2, 2)],
+              [(0, 0), (1, 0), (2, 2), (0, 2)]],
+    'thorough': [[(0, 0), (1, 2)],
+                 [(0, 0), (1, 0), (2, 2)],
+                 [(0, 0), (1, 0), (2, 2), (0, 2)],
+                 [(0, 0), (1, 0), (2, 2), (0, 2), (2, 1)]],
+}
+ORDER_PARTS = [(1, 'same'), (2, 'same'), (2, 'rev'), (3, 'rot')]   # (n_part, order of later partitions)
+LABELS = ['index', 'affine']                                      # label of condition c: c | 10 + 3c
 
 
 # ----------------------------------------------------------------------------- enumeration
@@ -163,13 +189,18 @@ def _digits(t):
 
 
 def _cfg(v, off, t=None, sims=None, n_part=None, signal=None, design=None, ncov=None,
-         exact=True, scov=False):
+         exact=True, scov=False, order=None, pvar=None, labels=None):
     if t is not None:
         a, b, c, d, e = _digits(t)
-        sims, n_part, signal, design, ncov = SIMS[a], 1 + b, SIGNALS[c], DESIGNS[d], NCOVS[e]
-    return {'v': [float(x) for x in v], 'off': int(off), 'n_part': int(n_part), 'n_sim': int(sims[0]),
-            'same': bool(sims[1]), 'signal': float(signal), 'design': design, 'ncov': ncov,
-            'exact': bool(exact), 'scov': bool(scov)}
+        sims, signal, ncov = SIMS[a], SIGNALS[c], NCOVS[e]
+        if design is None:
+            n_part, design = 1 + b, DESIGNS[d]
+    cfg = {'v': [float(x) for x in v], 'off': int(off), 'n_part': int(n_part), 'n_sim': int(sims[0]),
+           'same': bool(sims[1]), 'signal': float(signal), 'design': design, 'ncov': ncov,
+           'exact': bool(exact), 'scov': bool(scov)}
+    if design == 'vector_order':
+        cfg.update(order=[int(x) for x in order], pvar=pvar, labels=labels)
+    return cfg
 
 
 def shards(tier, seed):
@@ -203,6 +234,11 @@ def shards(tier, seed):
         for r in range(len(REPS[tier])):
             for design in (DESIGNS if big else [None]):
                 out.append({'block': 'C', 'what': what, 'rep': r, 'design': design})
+    # F: condition vectors in every trial order
+    for r, pts in enumerate(ORDER_REPS[tier]):
+        n_perm = len(list(itertools.permutations(range(len(pts)))))
+        for lo in range(0, n_perm, 6):
+            out.append({'block': 'F', 'rep': r, 'lo': lo, 'hi': min(n_perm, lo + 6)})
     # D: make_design
     out.append({'block': 'D'})
     return out
@@ -245,6 +281,15 @@ def _shard_configs(shard, tier):
                     t += 1
                     yield _cfg(v, shard['off'], sims=sims, n_part=shard['n_part'],
                                signal=SIGNALS[t % 3], design=shard['design'], ncov=ncov)
+    elif blk == 'F':
+        pts = ORDER_REPS[tier][shard['rep']]
+        v = ref.sq_dists(pts)
+        perms = list(itertools.permutations(range(len(pts))))
+        for r in range(shard['lo'], shard['hi']):
+            for k, (n_part, pvar) in enumerate(ORDER_PARTS):
+                t = 37 * r + 55 * k + 11 * shard['rep']
+                yield _cfg(v, OFFS[(r + k) % 3], t=_thin(t, r + k, 4), n_part=n_part,
+                           design='vector_order', order=perms[r], pvar=pvar, labels=LABELS[(r + k // 2) % 2])
     elif blk == 'C' and shard['what'] == 'alphabet':
         allv = list(itertools.product((0.0, 1.0, 2.0), repeat=shard['m']))
         for r in range(shard['lo'], min(len(allv), shard['hi'])):
@@ -301,6 +346,20 @@ class _Inputs:
             vals = sorted(set(self.cond_vec.tolist()))
             self.label_to_idx = {val: i for i, val in enumerate(vals)}
             self.cond_of_obs = [self.label_to_idx[val] for val in self.cond_vec.tolist()]
+        elif cfg['design'] == 'vector_order':
+            # hand-made condition vector: partition 0 lists the conditions in cfg['order'], the later
+            # partitions in the same / reversed (odd partitions) / rotated (by p) order
+            self.cond_of_obs = []
+            for part in range(n_part):
+                o = list(cfg['order'])
+                if cfg['pvar'] == 'rev' and part % 2 == 1:
+                    o = o[::-1]
+                elif cfg['pvar'] == 'rot':
+                    o = o[part % n:] + o[:part % n]
+                self.cond_of_obs += o
+            label = (lambda c: float(c)) if cfg['labels'] == 'index' else (lambda c: 10.0 + 3.0 * c)
+            self.cond_vec = np.array([label(c) for c in self.cond_of_obs], dtype=float)
+            self.label_to_idx = {label(c): c for c in range(n)}
         else:
             if cfg['design'] == 'matrix':
                 self.cond_of_obs = [c for p in range(n_part) for c in range(n)]
@@ -309,6 +368,10 @@ class _Inputs:
             self.cond_vec = np.array(ref.indicator_rows(self.cond_of_obs, n), dtype=float)
             self.label_to_idx = {c: c for c in range(n)}
         self.n_obs = len(self.cond_of_obs)
+        # the explicit design matrix that says the same as a 1-d condition vector
+        self.twin_matrix = None
+        if self.cond_vec.ndim == 1:
+            self.twin_matrix = np.array(ref.indicator_rows(self.cond_of_obs, n), dtype=float)
         self.ncov = None
         if cfg['ncov'] == 'spd':
             self.ncov = np.round(spd(rng_for(seed, 'ncov', self.n_channel), self.n_channel), 4)
@@ -318,14 +381,15 @@ class _Inputs:
         self.zero_rdm = not np.any(self.v)
         self.embeddable = ref.embeddable(cfg['v'])
 
-    def simulate(self, env, noise):
+    def simulate(self, env, noise, cond_vec=None):
         """one real make_dataset call under the environment env; returns (datasets, call log)"""
         from rsatoolbox.simulation import sim
         cfg = self.cfg
         rng = rngenv.RngEnv(env, menu=_menu_for(self.seed))
         with rngenv.installed(rng):
             ds = sim.make_dataset(
-                self.model, self.theta, self.cond_vec.copy(), n_channel=self.n_channel,
+                self.model, self.theta, (self.cond_vec if cond_vec is None else cond_vec).copy(),
+                n_channel=self.n_channel,
                 n_sim=cfg['n_sim'], signal=cfg['signal'], noise=noise,
                 signal_cov_channel=None if self.scov is None else self.scov.copy(),
                 noise_cov_channel=None if self.ncov is None else self.ncov.copy(),
@@ -338,9 +402,9 @@ def _menu_for(seed):
     return _Menu(seed, N_MENU)
 
 
-def _run_guarded(inp, env, noise):
+def _run_guarded(inp, env, noise, cond_vec=None):
     try:
-        ds, calls = inp.simulate(env, noise)
+        ds, calls = inp.simulate(env, noise, cond_vec)
         return {'ds': ds, 'calls': calls}
     except (HarnessError, KeyboardInterrupt, SystemExit, MemoryError):
         raise
@@ -349,7 +413,7 @@ def _run_guarded(inp, env, noise):
 
 
 def _sigclass(cfg):
-    return 'design=%s' % ('vector' if cfg['design'] == 'vector' else 'matrix')
+    return 'design=%s' % ('vector' if cfg['design'].startswith('vector') else 'matrix')
 
 
 def _data(ds):
@@ -388,6 +452,27 @@ def _evaluate(inp, choices, ctx, case, runs0=None):
                 ctx.fail('make_dataset|%s|data-shape' % sc, case, 'shape %r, expected %r' % (
                     np.shape(d.measurements), (n_obs, n_channel)))
                 return
+
+    # ---- (6) a condition vector and the design matrix that says the same give the same data
+    if inp.twin_matrix is not None:
+        s2 = NOISES[-1]
+        twin = _run_guarded(inp, choice.Env(choices), s2, cond_vec=inp.twin_matrix)
+        sig6 = 'make_dataset|%s|differs-from-equivalent-design-matrix' % sc
+        if 'exc' in twin:
+            with ctx.guard('make_dataset|design=matrix(twin),same=%s,exact=%s' % (cfg['same'], cfg['exact']), case):
+                raise twin['exc']
+        elif twin['calls'] != runs0['calls'] or len(twin['ds']) != n_sim:
+            ctx.fail(sig6 + ':draws', case, 'uniform draws %r with the condition vector, %r with its '
+                     'indicator design matrix' % (runs0['calls'], twin['calls']))
+        else:
+            a_, b_ = _data(runs[s2]['ds']), _data(twin['ds'])
+            for i in range(n_sim):
+                dev = maxreldev(a_[i], b_[i])
+                ctx.dev('vector-vs-matrix', dev)
+                if not allclose(a_[i], b_[i], 1e-12):
+                    ctx.fail(sig6, case, 'simulation %d, same draw history, noise %g: data from the condition '
+                             'vector %r and from its indicator design matrix differ by %.3g (relative)'
+                             % (i, s2, inp.cond_vec.tolist(), dev))
 
     # ---- (3) descriptors on every dataset of every run
     cond_name = None
@@ -493,7 +578,7 @@ def _evaluate(inp, choices, ctx, case, runs0=None):
     pos = {p: k for k, p in enumerate(ref.pair_index(n_cond))}
     for i, d in enumerate(runs0['ds']):
         with ctx.guard(sig1, case):
-            if cfg['design'] == 'vector':
+            if cfg['design'].startswith('vector'):
                 rdm = calc_rdm(d, 'euclidean', descriptor=cond_name)
                 labels = list(np.asarray(rdm.pattern_descriptors[cond_name]).tolist())
             else:
@@ -605,7 +690,7 @@ def run_case(case, ctx):
         _design_case(case, ctx)
         return
     cfg = {k: case[k] for k in ('v', 'off', 'n_part', 'n_sim', 'same', 'signal', 'design', 'ncov',
-                                'exact', 'scov')}
+                                'exact', 'scov', 'order', 'pvar', 'labels') if k in case}
     inp = _Inputs(cfg, ctx.seed)
     ctx.case(case, nontrivial=not inp.zero_rdm)
     _evaluate(inp, list(case['choices']), ctx, case)
